@@ -111,17 +111,34 @@ def strip_comments(src):
     return "".join(out)
 
 
-def grep_forbidden():
+def import_closure(module):
+    """files under lean/ that `module` transitively imports (RpycModel.* only), including itself"""
+    seen, todo = {}, [module]
+    while todo:
+        m = todo.pop()
+        if m in seen or not m.startswith("RpycModel"):
+            continue
+        path = os.path.join(LEAN_DIR, *m.split(".")) + ".lean"
+        if not os.path.exists(path):
+            continue
+        seen[m] = path
+        with open(path) as f:
+            for line in f:
+                mm = re.match(r"\s*(?:public\s+)?import\s+([\w.]+)", line)
+                if mm:
+                    todo.append(mm.group(1))
+    return sorted(seen.values())
+
+
+def grep_forbidden(module):
+    """forbidden tokens in the sources the property's theorem module depends on (its import closure)"""
     hits = []
-    for root, _dirs, files in os.walk(os.path.join(LEAN_DIR, "RpycModel")):
-        for fn in files:
-            if fn.endswith(".lean"):
-                p = os.path.join(root, fn)
-                with open(p) as f:
-                    src = strip_comments(f.read())
-                for ln, line in enumerate(src.split("\n"), 1):
-                    if FORBIDDEN.search(line):
-                        hits.append("%s:%d: %s" % (os.path.relpath(p, LEAN_DIR), ln, line.strip()[:120]))
+    for p in import_closure(module):
+        with open(p) as f:
+            src = strip_comments(f.read())
+        for ln, line in enumerate(src.split("\n"), 1):
+            if FORBIDDEN.search(line):
+                hits.append("%s:%d: %s" % (os.path.relpath(p, LEAN_DIR), ln, line.strip()[:120]))
     return hits
 
 
@@ -248,7 +265,7 @@ def run_check(prop, tier, seed):
         failed = set(e.split(":")[1].split(" ")[0] for e in errs)
         discharged = len([o for o in obligations if o not in failed])
         ctx.log("proofs: build FAILED; broken: %s" % "; ".join(errs)[:600])
-    hits = grep_forbidden()
+    hits = grep_forbidden(prop.LEAN_MODULE)
     if hits:
         broken.append("forbidden tokens in model sources: %s" % hits[:5])
     if tier == "thorough" and ok_build:
